@@ -691,6 +691,21 @@ for _k, _what in (("C18", "GetRange, the page requests of GetAccountBlocksByPage
                   ("C11", "MinInt64 / MaxInt64, getWeightedStakeAmount, getWeightedStake, getWeightedSentinel")):
     TEXT[_k]["text"] += _TR + " Translated here: " + _what + "."
     TEXT[_k]["technique"] += " + Go->Lean translation of the integer core with refinement theorems"
+# ---- round 6 additions: the translator covers loops, tables, switch and more fragments ------------------------------------------
+_TR6 = (" TRANSLATED CODE, round 6: the subset now has counting loops (folds over the counter's values with continue / break / return), "
+        "indexing of byte slices and of package-level tables with Go's bounds panic explicit, switch, on-demand min/max helpers; the "
+        "definitions that were only pinned at machine level in round 5 are proved equal to the Nat/Int hand models.")
+for _k, _what in (("C18", "the page request against Rpc.pageRequest (needs the page-size guard: negative witness without it), the reward-history epoch, and the page-size guard of ALL 27 paged getters as one fact list (pageGuards_translation_refines_model: each has a bound <= RpcMaxPageSize)"),
+                  ("C14", "accountPool.filterBlocksToCommit (range loop with break over the slice of block pointers projected to BlockType, make / self-append / x[:0]) proved equal to the model loop Pool.filterGo for every list, by induction"),
+                  ("C12", "greaterDifficulty (downward loop over 8 bytes, panics on shorter slices), the plain-send base cost of GetBasePlasmaForAccountBlock, the three inequalities of enoughPlasma composed against Pow.enoughPlasma"),
+                  ("C05", "ToTime offsets against Ticker.toTime, the TickMultiplier tail against Consensus.tickMultiplier, the two timestamp tests of rawMomentumVerifier.timestamp"),
+                  ("C15", "nothing new"),
+                  ("C11", "NetworkZnnRewardPerEpoch / NetworkQsrRewardPerEpoch with their tables read from the AST, the CanPerformEpochUpdate test against EpochCursor.tooRecent, the cursor increment, getWeightedStakeAmount against RewardEpoch.stakeWeightedAmount"),
+                  ("C03", "the amount bounds (Sign() == -1, BitLen() > 255) and the three height / previous-hash checks of accountBlockVerifier against Verify.amountTooBig / Verify.heightChecks"),
+                  ("C16", "the rollback-target height, the 30-momentum window and the strictly-longer test of chainBridge.InsertChain against Proto.sub64 / Gen.InsertChainWindow / Sync.pred64")):
+    TEXT[_k]["text"] += _TR6 + " Translated in round 6: " + _what + "."
+for _k in ("C03", "C16"):
+    TEXT[_k]["technique"] += " + Go->Lean translation of the integer comparisons with refinement theorems"
 TEXT["C11"]["text"] += (" END-TO-END (Props/C11Epoch.lean, Model/RewardEpoch.lean, round 5): one composed machine per contract - the cursor loop "
     "calling a line-by-line model of compute...ForEpoch (stake, sentinel, pillar with producer / delegate split, liquidity with both "
     "tables) on the storage the previous epoch left - with theorems over arbitrary runs: per epoch the sum credited over all accounts "
